@@ -527,12 +527,10 @@ impl CoreDocument {
 
     let nonce: Option<&str> = options.nonce.as_deref();
     // Validate the nonce
-    if let Some(jws_nonce) = validation_item.nonce() {
-      if Some(jws_nonce) != nonce {
-        return Err(Error::JwsVerificationError(
-          identity_verification::jose::error::Error::InvalidParam("invalid nonce value"),
-        ));
-      }
+    if validation_item.nonce() != nonce {
+      return Err(Error::JwsVerificationError(
+        identity_verification::jose::error::Error::InvalidParam("invalid nonce value"),
+      ));
     }
 
     let method_url_query: DIDUrlQuery<'_> = match &options.method_id {
